@@ -37,7 +37,7 @@ import (
 
 // ---- entry alphabets ---------------------------------------------------------------
 
-var listEntriesQuick = []string{
+var listEntries = []string{
 	"name.example",
 	"*.name.example",
 	"NAME.Example.",   // the same host as entry 0: other case, trailing dot
@@ -52,25 +52,22 @@ var listEntriesQuick = []string{
 	"10.1.2.3/8",  // 10.0.0.0/8 written with host bits set
 	"93.184.0.0/16",
 	"93.184.216.0/24", // inside 93.184.0.0/16, contains pub4
-}
-
-var listEntriesThorough = append(append([]string{}, listEntriesQuick...),
 	pub4,
 	"::ffff:10.0.0.1", // 10.0.0.1 in IPv4-mapped notation
 	"fc00::/7",
 	"fd00::/8", // inside fc00::/7
 	"fd00::1",
-)
+}
 
-// sub-alphabets for sequences of three entries
-var listTripleQuick = [][]string{{"name.example", "*.name.example", "other.example"}}
-var listTripleThorough = [][]string{
+// sub-alphabets for sequences of three entries (quick tier; the thorough tier takes all triples of listEntries)
+var listTriple = [][]string{
 	{"name.example", "*.name.example", "NAME.Example.", "a.name.example", "*.a.name.example", "other.example"},
 	{"10.0.0.0/8", "10.0.0.1", "10.0.0.0/16", "10.1.2.3/8", "93.184.0.0/16", "93.184.216.0/24"},
 }
 
 // sub-alphabet of the allow x deny product (both lists name the same domain / network: deny must win)
 var listCross = []string{"name.example", "*.name.example", "a.name.example", "10.0.0.0/8", "10.0.0.1"}
+var listCrossThorough = []string{"name.example", "*.name.example", "a.name.example", "NAME.Example.", "*", "10.0.0.0/8", "10.0.0.1", "10.0.0.0/16", "93.184.216.0/24", pub4}
 
 // hand-picked related lists for the Hookaidofile-form and dns_rebind_protection dimensions
 var listHand = [][]string{
@@ -106,15 +103,16 @@ func listClass(l []string) string {
 
 // listPolicies: the policies of part (L), in a fixed order.
 func listPolicies(thorough bool) []polSpec {
-	entries, triples := listEntriesQuick, listTripleQuick
-	if thorough {
-		entries, triples = listEntriesThorough, listTripleThorough
-	}
+	entries := listEntries
 	var lists [][]string
 	lists = append(lists, seqs(entries, 1)...)
 	lists = append(lists, seqs(entries, 2)...)
-	for _, t := range triples {
-		lists = append(lists, seqs(t, 3)...)
+	if thorough {
+		lists = append(lists, seqs(entries, 3)...)
+	} else {
+		for _, t := range listTriple {
+			lists = append(lists, seqs(t, 3)...)
+		}
 	}
 	var out []polSpec
 	seen := map[string]bool{}
@@ -127,35 +125,34 @@ func listPolicies(thorough bool) []polSpec {
 		seen[k] = true
 		out = append(out, p)
 	}
-	rebinds := []bool{false}
-	if thorough {
-		rebinds = []bool{false, true}
-	}
-	for _, rb := range rebinds {
+	for _, rb := range []bool{false, true} {
 		for _, l := range lists {
 			add(rb, nil, l, "")
 			add(rb, l, nil, "")
 		}
 	}
-	// both lists: allow x deny over the cross alphabet; quick: one side has a single entry
-	c1, c2 := seqs(listCross, 1), append(seqs(listCross, 1), seqs(listCross, 2)...)
+	// both lists: allow x deny over the cross alphabet (every sequence of 1..2 entries on each side)
+	cross := listCross
+	if thorough {
+		cross = listCrossThorough
+	}
+	c2 := append(seqs(cross, 1), seqs(cross, 2)...)
 	for _, a := range c2 {
 		for _, d := range c2 {
-			if thorough || len(a) == 1 || len(d) == 1 {
-				add(false, a, d, "")
-			}
+			add(false, a, d, "")
 		}
 	}
-	_ = c1
-	// Hookaidofile forms and dns_rebind_protection on the hand-picked lists
-	for _, l := range listHand {
+	// Hookaidofile forms on the hand-picked lists (and, thorough, on every list of up to two entries)
+	formLists := listHand
+	if thorough {
+		formLists = append(append([][]string{}, listHand...), append(seqs(entries, 1), seqs(entries, 2)...)...)
+	}
+	for _, l := range formLists {
 		for _, form := range []string{"multi", "env-default"} {
 			add(false, nil, l, form)
 			add(false, l, nil, form)
+			add(true, []string{"*"}, l, form)
 		}
-		add(true, nil, l, "")
-		add(true, l, nil, "")
-		add(true, []string{"*"}, l, "multi")
 	}
 	return out
 }
@@ -280,7 +277,7 @@ const listOutside = "198.35.26.96" // a public address no entry of the alphabets
 func listResolverAnswers() []*resSpec {
 	var out []*resSpec
 	seen := map[string]bool{}
-	all := append(append([]string{}, listEntriesThorough...), listCross...)
+	all := append(append([]string{}, listEntries...), listCrossThorough...)
 	for _, e := range all {
 		r := parseRule(e)
 		if r.kind != ruleNet {
@@ -378,14 +375,27 @@ func (rep *reporter) enumerateListPolicy(polIdx int, p polSpec, real dispatcher.
 	st.counters["list_policies"]++
 	st.counters["list_derived_hosts"] += int64(len(reqs))
 
-	// the first URL of the redirect chains: the first start the reference allows
+	// the first URL of the redirect chains: the first standard start the reference allows, else the first derived host
+	// that is a plain public probe and allowed
 	var buf [1]addr
 	var start *startSpec
-	for i := range starts {
-		s := &starts[i]
-		if s.host == "10.0.0.1" {
-			continue
+	cands := make([]startSpec, 0, len(starts)+len(reqs))
+	for _, s := range starts {
+		if s.host != "10.0.0.1" {
+			cands = append(cands, s)
 		}
+	}
+	for _, q := range reqs {
+		if q.probe {
+			s := startSpec{url: "https://" + q.text + "/start", host: q.canon}
+			if q.res != nil {
+				s.table = []lookup{{q.canon, q.res}}
+			}
+			cands = append(cands, s)
+		}
+	}
+	for i := range cands {
+		s := &cands[i]
 		tc := tcase{table: s.table}
 		addrs, _ := tc.addrsOf(s.host, &buf)
 		if _, ok := e.ref.verdict("https", s.host, addrs); ok {
